@@ -80,6 +80,7 @@ Inductive expr :=
 | EPreDec (x : string)
 | ELongMul (a b : expr)
 | ESizeMul (a b : expr)                (* a * b carried out in size_t (64 bits, wraps) on two non-negative operands *)
+| EMemsetCells (p n : expr)            (* memset(p, 0, n) on an array of pointers: the n / 8 cells from p on become zero (null); the value is p *)
 | EReadItems (p sz n : expr).          (* fread(p, sz, n, f) into the caller's memory (stream separate from the memory), sz > 0: as many bytes as the stream still has, at most sz * n; the number of complete items *)               (* (long)a * b on two ints: the product in 64 bits, which always holds it; only ever the offset of an fseek *)
 
 (* an argument of a call: a value; the address of an int local (&x); or a pointer parameter p of the
@@ -870,6 +871,30 @@ Fixpoint eval (e : expr) (s : state) : option (val * state) :=
     | Some (VInt x, s1) =>
       match eval b s1 with
       | Some (VInt y, s2) => if (0 <=? x) && (0 <=? y) then Some (VInt ((x * y) mod 18446744073709551616), s2) else None
+      | _ => None
+      end
+    | _ => None
+    end
+  | EMemsetCells p a =>
+    match eval p s with
+    | Some (VCell b i, s1) =>
+      match eval a s1 with
+      | Some (VInt n, s2) =>
+        match heap_of s2 with
+        | Some h =>
+          match nth_error h b with
+          | Some (Some blk) =>
+            if (0 <=? i) && (0 <=? n) && (n mod 8 =? 0) && (i + n / 8 <=? Z.of_nat (List.length blk)) then
+              let newblk := firstn (Z.to_nat i) blk ++ repeat (VInt 0) (Z.to_nat (n / 8)) ++ skipn (Z.to_nat (i + n / 8)) blk in
+              match set_nth_v b (Some newblk) h with
+              | Some h1 => match set_var cells_var (VHeap h1) s2 with Some s3 => Some (VCell b i, s3) | None => None end
+              | None => None
+              end
+            else None
+          | _ => None
+          end
+        | None => None
+        end
       | _ => None
       end
     | _ => None
